@@ -640,6 +640,78 @@ def rule_schema_not_a_condition(ctx, rid="R1.9"):
     return r
 
 
+def rule_instance_not_a_condition(ctx, rid="R1.11"):
+    """A member of the instance is data, never a condition: null, false, 0, "", [] and {} are values like any other, and a
+    member holding one of them is *present*.  (Presence is `name in instance`; emptiness is len().)"""
+    from ..prov import Prov
+    prog = ctx.prog
+    calls = calls_of(prog)
+    r = ctx.rule(rid, "no keyword function (or helper on the instance) branches on the truthiness of an instance member", floor=40)
+    funcs = {}
+    for f in prog.tables.keyword_funcs():
+        funcs[f] = calls.param_with_role(f, "instance")
+    # helpers that receive the instance
+    for f in list(funcs):
+        for (_n, call, tg) in calls.calls_in(f):
+            for t in tg:
+                if t.kind == "func" and t.func is not None and t.func.cls is None and t.func not in funcs and t.func.mod.name in ("_utils", "_validators", "_legacy_validators"):
+                    ip = funcs[f]
+                    for i, a in enumerate(call.args):
+                        if isinstance(a, ast.Name) and a.id == ip and i < len(t.func.params):
+                            funcs[t.func] = t.func.params[i]
+
+    def rooted(t, ip):
+        while isinstance(t, tuple) and t and t[0] == "elem":
+            if t[1] == ("param", ip):
+                return True
+            t = t[1]
+        return False
+    for f, ip in sorted(funcs.items(), key=lambda x: x[0].qual):
+        if ip is None:
+            continue
+        pv = Prov(prog, calls, f)
+        conds = []
+        cfg = cfg_of(f)
+        for n in cfg.live:
+            if n.kind == "test":
+                conds.append(n.ast)
+        for n in walk_body(f):
+            if isinstance(n, ast.IfExp):
+                conds.append(n.test)
+            elif isinstance(n, ast.comprehension):
+                conds.extend(n.ifs)
+            elif isinstance(n, ast.While):
+                conds.append(n.test)
+        atoms = []
+        def split(e):
+            if isinstance(e, ast.UnaryOp) and isinstance(e.op, ast.Not):
+                split(e.operand)
+            elif isinstance(e, ast.BoolOp):
+                for v in e.values:
+                    split(v)
+            else:
+                atoms.append(e)
+        for c in conds:
+            split(c)
+        bad = 0
+        for a in atoms:
+            if isinstance(a, (ast.Compare, ast.Constant)):
+                continue
+            if isinstance(a, ast.Call) and not (isinstance(a.func, ast.Attribute) and a.func.attr == "get"):
+                continue
+            if not isinstance(a, (ast.Name, ast.Subscript, ast.Call)):
+                continue
+            t = pv.term(a, pv.env_at(a))
+            if rooted(t, ip):
+                bad += 1
+                r.fail("%s|instance-member-truthiness|%s" % (f.qual, norm(a)[:40]), site(f, a),
+                       "`%s` is tested for truthiness: a member holding null, false, 0, \"\", [] or {} is treated as absent (or a "
+                       "non-empty one as a verdict), so presence-dependent keywords misjudge such instances" % norm(a)[:50])
+        if not bad:
+            r.ok(site(f), "%d conditions, none is the truthiness of an instance member" % len(atoms))
+    return r
+
+
 def run(ctx):
     ctx.explanation = (
         "C01, necessary structural conditions of agreement with the specification: R1.1 keyword tables = draft vocabularies; "
@@ -648,6 +720,7 @@ def run(ctx):
         "of the loop-free function on each of the 12 rows, compared with the draft's table for every (draft, keyword) binding; "
         "R1.3b required/pattern relations; R1.4 schema regexes searched unanchored and verbatim; R1.5 applicators iterate their "
         "whole domain; R1.6 additional-property complement; R1.7 type predicates evaluated abstractly over the 8 value classes. "
+        "R1.9/R1.11 neither a subschema nor an instance member is used as a condition. "
         "Not decided: combination semantics of anyOf/oneOf/not/contains/if and agreement on concrete (schema, instance) pairs.")
     ctx.assume("specification tables in sa/spec.py (DESIGN Appendix B)")
     ctx.assume("Python ordering comparison of int/float is exact; re.search is ECMA 262 `test` on the agreed regex subset")
@@ -661,6 +734,7 @@ def run(ctx):
     rule_type_predicates(ctx)
     rule_is_type_wiring(ctx)
     rule_schema_not_a_condition(ctx)
+    rule_instance_not_a_condition(ctx)
     # R1.10: a keyword's verdict may depend on exactly the sibling names the draft gives it (necessary for spec agreement)
     from .c10 import rule_read_set
     rule_read_set(ctx, "R1.10")
